@@ -93,18 +93,23 @@ impl CanCastTo<ResolvedParamType> for ExpressionType {
                 _ => false,
             },
             Self::Array(box_element_type) => match target {
+                // an array is never converted (it is passed by reference even
+                // inside parenthesis), the element types must be the same
                 ResolvedParamType::Array(target_element_type) => {
-                    box_element_type.can_cast_to(target_element_type)
+                    match (box_element_type.as_ref(), target_element_type.as_ref()) {
+                        (Self::BuiltIn(q), ResolvedParamType::BuiltIn(q_target, _)) => {
+                            q == q_target
+                        }
+                        (
+                            Self::UserDefined(type_name),
+                            ResolvedParamType::UserDefined(target_type_name),
+                        ) => type_name == target_type_name,
+                        _ => false,
+                    }
                 }
                 _ => false,
             },
         }
-    }
-}
-
-impl CanCastTo<Box<ResolvedParamType>> for Box<ExpressionType> {
-    fn can_cast_to(&self, target: &Box<ResolvedParamType>) -> bool {
-        self.as_ref().can_cast_to(target.as_ref())
     }
 }
 
